@@ -229,3 +229,50 @@ def gen_dataset(rng, max_rows=10, max_labels=4, nkeys=None, key_classes=None, vd
     elif n and mk == "p":
         mask = ("p", [rng.randrange(-n, n) for _ in range(rng.randint(0, n + 2))])
     return dict(keys=keys, key_classes=key_classes, vals=vals, vdt=vdt, mask=mask, sort=rng.random() < 0.8)
+
+
+def bigcard_keys(gseed: int, n1: int = 70000, planted: int = 40):
+    """two integer key columns whose per-key label counts multiply beyond 2**32 (the typed-dict tracker of factorize_2d):
+    the first n1 rows are (i, i), so that both keys' first-appearance codes equal their values; then `planted` pairs of rows
+    (c1, c2), (c1 + q, c2 + r) with q * n1 + r = 2**32 - mixed-radix keys that differ by exactly 2**32 - and random repeats"""
+    g = np.random.default_rng(gseed)
+    q, r = divmod(2 ** 32, n1)
+    k1 = [np.arange(n1), ]
+    k2 = [np.arange(n1), ]
+    c1 = g.integers(0, n1 - q - 1, planted)
+    c2 = g.integers(0, n1 - r - 1, planted)
+    c2 = np.where(c1 == c2, c2 + 1, c2)
+    k1 += [np.stack([c1, c1 + q], axis=1).ravel()]
+    k2 += [np.stack([c2, c2 + r], axis=1).ravel()]
+    rep = g.integers(0, n1 + 2 * planted, 500)
+    a, b = np.concatenate(k1), np.concatenate(k2)
+    a, b = np.concatenate([a, a[rep]]), np.concatenate([b, b[rep]])
+    return a.astype(np.int64), b.astype(np.int64)
+
+
+def check_bigcard(codes, lab1, lab2, k1, k2, want_order: str | None):
+    """partition relations on a large two-key factorization (vectorised); returns an error string or None"""
+    codes = np.asarray(codes)
+    if len(codes) != len(k1):
+        return f"{len(codes)} codes for {len(k1)} rows"
+    if (codes < 0).any() or (codes >= len(lab1)).any():
+        return "code out of range (no key is null here)"
+    bad = np.nonzero((np.asarray(lab1)[codes] != k1) | (np.asarray(lab2)[codes] != k2))[0]
+    if len(bad):
+        i = int(bad[0])
+        return f"row {i} has key ({int(k1[i])}, {int(k2[i])}) but its code {int(codes[i])} is labelled ({int(np.asarray(lab1)[codes[i]])}, {int(np.asarray(lab2)[codes[i]])})"
+    pairs = np.asarray(lab1).astype(np.int64) * (2 ** 31) + np.asarray(lab2).astype(np.int64)
+    if len(np.unique(pairs)) != len(pairs):
+        return "two labels are equal"
+    distinct = len(np.unique(k1.astype(np.int64) * (2 ** 31) + k2))
+    if distinct != len(lab1):
+        return f"{len(lab1)} labels for {distinct} distinct key pairs"
+    if want_order == "first":
+        _, first = np.unique(codes, return_index=True)
+        if (np.diff(first) <= 0).any():
+            g = int(np.nonzero(np.diff(first) <= 0)[0][0])
+            return f"labels are not in first-appearance order: label {g + 1} first appears at row {int(first[g + 1])}, label {g} at row {int(first[g])}"
+    if want_order == "sorted":
+        if (np.diff(pairs) <= 0).any():
+            return "labels are not sorted"
+    return None
